@@ -107,7 +107,10 @@ def check(run, project):
     # call from the pump through the dispatcher and the stream walker to the message walkers (a call that omits it falls back
     # to strict: in warn mode the stream aborts where the single message would have warned and gone on)
     from . import c07
-    c07.check(RuleView(run, "NI-2", "S7"), project)
+    try:
+        c07.check(RuleView(run, "NI-2", "S7"), project)
+    except AnalysisError as ex:
+        run.info(f"S7: the threading of the mode flag could not be followed ({ex}); not judged here (C07 reports it)")
     # ... and there is such an end: when the input ends after a complete message the stream walker has already announced the
     # next message's root; without the pump's silent return at that point every stream would end in a depleted error
     from .. import pump as _pump
